@@ -86,6 +86,10 @@ def _has_null_key(data):
     return False
 
 
+def outside_operator_domain(res):
+    return res[0] == "raise" and res[1] == "ValueError" and "is not keyed by" in res[2]
+
+
 def raise_finding(backend, res, hist, data):
     """Narrow matchers for listed findings whose symptom is an exception."""
     if res[0] != "raise":
@@ -109,6 +113,12 @@ def decide_pair(hist, data, name_a, res_a, conv_a, name_b, res_b, conv_b, part, 
     if req(hist, res_a, res_b):
         part.count("agree")
         return "agree"
+    for rs in (res_a, res_b):
+        if outside_operator_domain(rs):
+            # an in-memory executor validated a documented precondition of a step (a record conversion needs a
+            # table keyed by its record keys) and refused the input; SQL cannot check it.  Not a comparable case.
+            part.count("skipped_input_outside_operator_domain")
+            return "outside_domain"
     for nm, rs in ((name_a, res_a), (name_b, res_b)):
         fid = raise_finding(nm, rs, hist, data)
         if fid is not None and part.is_open(fid):
